@@ -334,6 +334,7 @@ func genC03(c *Ctx) {
 	// code - the worst-case share index 128*128 = 16384 - alone, behind ordinary transactions, and next to
 	// a small accepted blob transaction
 	list = append(list, oversizedBlobCases(c, r)...)
+	list = append(list, boundaryUnitCases(c, r)...)
 	for ci, s := range list {
 		if ci < nModel {
 			c.add("build", argsOf(s)...)
@@ -512,19 +513,28 @@ func genC06(c *Ctx) {
 	defer func() { shortInner = false }()
 	c.rule = "append sequences on a builder (accepted and refused ordinary and blob txs of hot sizes, tight maxima <= 64) with the observable state queried after every append and a final export; oracle: no Build error, estimate >= occupied shares, minimal side, refusal exactly on overflow (independent estimate), refused append leaves state unchanged; non-trivial = distinct sequence with a refused append or a blob"
 	r := c.rng
+	var list []sqCase
 	for i := 0; i < 220*c.scale; i++ {
-		s := randSquareCase(c, r, false, true)
-		ops := make([]string, 0, 2*len(s.txs)+2)
-		for _, t := range s.txs {
-			if t.blobs == nil {
-				ops = append(ops, "t"+hx(t.raw), "q")
-			} else {
-				ops = append(ops, "b"+hx(t.raw), "q")
+		list = append(list, randSquareCase(c, r, false, true))
+	}
+	nModel := len(list)
+	// Go side only: units on varint-width boundaries aligned to share boundaries, many-blob PFBs, oversized blobs
+	list = append(list, boundaryUnitCases(c, r)...)
+	list = append(list, oversizedBlobCases(c, r)...)
+	for ci, s := range list {
+		if ci < nModel {
+			ops := make([]string, 0, 2*len(s.txs)+2)
+			for _, t := range s.txs {
+				if t.blobs == nil {
+					ops = append(ops, "t"+hx(t.raw), "q")
+				} else {
+					ops = append(ops, "b"+hx(t.raw), "q")
+				}
 			}
+			ops = append(ops, "x", "q")
+			c.add("builderops", strconv.Itoa(s.max), strconv.Itoa(s.thr), strings.Join(ops, ","))
+			c.add("build", argsOf(s)...)
 		}
-		ops = append(ops, "x", "q")
-		c.add("builderops", strconv.Itoa(s.max), strconv.Itoa(s.thr), strings.Join(ops, ","))
-		c.add("build", argsOf(s)...)
 		// oracle
 		wit := map[string]any{"case": s.shape()}
 		b, err := square.NewBuilder(s.max, s.thr)
@@ -588,10 +598,18 @@ func genC07(c *Ctx) {
 	defer func() { shortInner = false }()
 	c.rule = "Construct and Build outputs compared byte for byte with an independent reference implementation of the layout rules (harness) and with the Coq model; lists as in C01 incl. equal namespaces (stability), versions 0/1; non-trivial = distinct case with a blob"
 	r := c.rng
+	var list []sqCase
 	for i := 0; i < 240*c.scale; i++ {
-		s := randSquareCase(c, r, false, true)
-		c.add("build", argsOf(s)...)
-		c.add("specbuild", argsOf(s)...)
+		list = append(list, randSquareCase(c, r, false, true))
+	}
+	nModel := len(list)
+	// Go side only (compared with the harness's reference layout, not with the model)
+	list = append(list, boundaryUnitCases(c, r)...)
+	for ci, s := range list {
+		if ci < nModel {
+			c.add("build", argsOf(s)...)
+			c.add("specbuild", argsOf(s)...)
+		}
 		wit := map[string]any{"case": s.shape()}
 		sq, kept, err := keptCase(s)
 		if !c.check(err == nil, "Build", "error", wit) {
@@ -616,12 +634,99 @@ func genC07(c *Ctx) {
 		c.check(eqShares(ref, sq), "Build", "square differs from the specified layout", wit)
 		sq2, err := square.Construct(refKept, s.max, s.thr)
 		c.check(err == nil && eqShares(ref, sq2), "Construct", "square differs from the specified layout", wit)
-		c.add("construct", strconv.Itoa(s.max), strconv.Itoa(s.thr), joinHexList(refKept))
-		c.add("specconstruct", strconv.Itoa(s.max), strconv.Itoa(s.thr), joinHexList(refKept))
+		if ci < nModel {
+			c.add("construct", strconv.Itoa(s.max), strconv.Itoa(s.thr), joinHexList(refKept))
+			c.add("specconstruct", strconv.Itoa(s.max), strconv.Itoa(s.thr), joinHexList(refKept))
+		}
 		if len(pfbs) > 0 {
 			c.mark(s.shape())
 		}
 	}
+}
+
+// alignedTxLen: a transaction length near `around` such that `prefix` stream bytes followed by the
+// length-prefixed transaction end exactly `delta` bytes past a compact share boundary (474 + 478 k).
+func alignedTxLen(prefix, around, delta int) int {
+	l := around
+	for it := 0; it < 8; it++ {
+		total := prefix + l + len(uvarint(uint64(l)))
+		over := (total - 474 - delta) % 478
+		if total < 474+delta {
+			over = total - 474 - delta // negative: grow
+		}
+		if over == 0 {
+			return l
+		}
+		l -= over
+		if l < 1 {
+			l += 478
+		}
+	}
+	return l
+}
+
+// boundaryUnitCases (Go side only: units up to 2 MiB): ordinary transactions whose length sits on a
+// varint-width boundary (2^14, 2^21) or a power of two near them (2^20), sized so that the stream ends
+// exactly on / one byte past a compact share boundary - the only alignments at which a one-byte
+// disagreement between a counter and a writer changes a share count; and blob transactions with
+// 42..44 / 63..65 blobs (the packed share-index field crosses its one-byte length prefix at 43 worst-case
+// and 64 one-byte-real indexes) whose worst-case wrapped PFB ends on / one byte past the first share.
+func boundaryUnitCases(c *Ctx, r *Rng) []sqCase {
+	var out []sqCase
+	nss := blobNamespaces(r, 3)
+	for _, around := range []int{1 << 14, 1<<14 + 200, 1 << 20, 1<<20 + 700, 1<<21 - 700, 1 << 21} {
+		for delta := 0; delta <= 1; delta++ {
+			prefix := 0
+			var l []genTx
+			if r.Bool(50) {
+				small := r.Bytes(1 + r.Intn(300))
+				prefix = len(small) + len(uvarint(uint64(len(small))))
+				l = append(l, genTx{raw: small})
+			}
+			n := alignedTxLen(prefix, around, delta)
+			l = append(l, genTx{raw: make([]byte, n)})
+			max := 64
+			if n > 1900000 {
+				max = 128
+			}
+			out = append(out, sqCase{txs: l, max: max, thr: 64})
+			c.count("boundary_unit_tx")
+		}
+	}
+	for _, nb := range []int{42, 43, 44, 63, 64, 65} {
+		for delta := 0; delta <= 1; delta++ {
+			blobs := make([]genBlob, nb)
+			for j := range blobs {
+				blobs[j] = randBlob(r, nss, 100)
+				blobs[j].data = r.Bytes(1 + r.Intn(300))
+			}
+			worst := make([]uint32, nb)
+			for j := range worst {
+				worst[j] = 16384
+			}
+			// inner length such that the delimited worst-case wrapper is 474 + delta bytes
+			inner := 200
+			for it := 0; it < 8; it++ {
+				w := len(refDelimited(refIndexWrapper(make([]byte, inner), worst)))
+				if w == 474+delta {
+					break
+				}
+				inner -= w - (474 + delta)
+			}
+			if inner < 1 {
+				continue
+			}
+			l := []genTx{{raw: blobTxWithInner(r.Bytes(inner), blobs), blobs: blobs}}
+			if r.Bool(50) {
+				sb := randBlob(r, nss, 300)
+				sbl := []genBlob{sb}
+				l = append(l, genTx{raw: blobTxWithInner(r.Bytes(100), sbl), blobs: sbl})
+			}
+			out = append(out, sqCase{txs: l, max: 16, thr: pick(r, []int{1, 64})})
+			c.count("boundary_unit_pfb")
+		}
+	}
+	return out
 }
 
 // oversizedBlobCases: transaction lists containing one blob of 16383 / 16384 / 16385 shares (the
